@@ -25,4 +25,13 @@ PROPS = {
         "assumptions": ["a report is abstracted to (severity, key) where key stands for all other fields compared by Report.isEqual",
                         "the run 'completes linting': runs that stop on configuration or discovery errors are not covered by the statement"],
     },
+    "C09": {
+        "n": {"quick": 400, "thorough": 20000},
+        "level_text": "Lean proof that the modelled isMatch/Match.IsMatch (nine conditions, ignore-dominates, any-match, command-dependent state default) equals an independently written documented-semantics spec for every configuration, entry and command, given full-match regexps; model tied to match.go/parsed_rule.go by correspondence of GetChecksForEntry on random configs; the regexp-anchoring hypothesis is evaluated on the real strictRegex",
+        "technique": "Lean 4 refinement proof to a boolean spec + differential correspondence + marker-check search",
+        "rule": "n random configs of 1-3 rule blocks with random match/ignore sub-blocks over all nine condition kinds (each carrying a unique marker name-check) x two random rule files with group labels x lint/ci/watch with random entry states; correspondence: real GetChecksForEntry vs Lean getChecks per entry; observation: marker problems vs a Go reference evaluator written from the docs; non-trivial = block has at least one match/ignore sub-block; distinct = distinct (config, block, entry, command, state)",
+        "trusted_base": COMMON_TB + ["Go regexp (parameter re); HCL decoding of the config; model.ParseDuration"],
+        "assumptions": ["regexp matching is the parameter re; H_anchor (strictRegex = full match) is checked on the real code by the harness, not proved",
+                        "rule `for` values that are not valid durations are outside the generator (Prometheus rejects such rules)"],
+    },
 }
